@@ -21,4 +21,6 @@ import PvModel.Props.C17Enforce
 #print axioms Pv.C17_labelling_invariants
 #print axioms Pv.C17_hidden_labelling_decides
 #print axioms Pv.C17_hidden_onceo
+#print axioms Pv.C17_opsOK_of_allBound
+#print axioms Pv.C17_hidden_onceo_model
 #print axioms Pv.C17_enforce_assembly
